@@ -32,6 +32,10 @@ def maps_for(rng, names, exhaustive):
         rng.shuffle(perm)
         out.append(dict(zip(names, perm)))                         # permutation
         out.append({x: y for x, y in zip(names, perm[1:] + ["N2"])})
+    if n >= 2:
+        a, b = rng.sample(names, 2)
+        out.append({a: b})                                         # onto an existing name: must be refused
+    out.append({names[0]: rng.choice(["not valid", "1x", "", "a-b"])})   # not an identifier: must be refused
     for _ in range(4):
         k = rng.randint(1, n)
         dom = rng.sample(names, k)
@@ -100,11 +104,24 @@ def run(chk):
             chk.case([payload, sorted(nm.items())], nontrivial=any(k != v for k, v in nm.items()))
             before = (gen.graph_payload(g), [id(d) for d in g.demes])
             rep = dict(op="rename_demes", graph=payload, names=list(nm.items()), label=label)
+            newnames = [nm.get(x, x) for x in names]
+            good = len(set(newnames)) == len(newnames) and all(x.isidentifier() for x in newnames)
             try:
                 h = g.rename_demes(nm)
             except Exception as e:
-                chk.violation("rename:raises:" + type(e).__name__, "rename_demes raised for an injective map to fresh names",
-                              dict(rep, error=repr(e)))
+                if good:
+                    chk.violation("rename:raises:" + type(e).__name__, "rename_demes raised for an injective map to fresh names",
+                                  dict(rep, error=repr(e)))
+                else:
+                    chk.count("bad_map_refused")
+                    mr = drv.call("rename", payload, [list(x) for x in nm.items()], [])
+                    if mr[0] != "err":
+                        chk.disagreements += 1
+                        chk.unproven("rename:correspondence", "model accepts a map the implementation refuses", rep)
+                continue
+            if not good:
+                chk.violation("rename:bad-map-accepted", "rename_demes returned a graph for a non-injective or non-identifier renaming",
+                              dict(rep, result=gen.graph_payload(h)))
                 continue
             after = (gen.graph_payload(g), [id(d) for d in g.demes])
             bad = spec_check(g, nm, h, before, after)
@@ -119,7 +136,7 @@ def run(chk):
                 except KeyError:
                     nmx = None
                 impl_probe.append([p, p in h, nmx])
-            if not (graphs.payload_eq(h, mr[0]) and impl_probe == mr[1]):
+            if not (mr[0] == "ok" and graphs.payload_eq(h, mr[1][0]) and impl_probe == mr[1][1]):
                 chk.disagreements += 1
                 chk.unproven("rename:correspondence", "implementation and proved model differ",
                              dict(rep, impl=[gen.graph_payload(h), impl_probe], model=mr))
